@@ -73,10 +73,8 @@ func (c *C) Choose(n int, kind ChoiceKind, label string) int {
 		if kind == Dev && f.chosen != 0 {
 			c.cost++
 		}
+		c.afterChoice()
 		return f.chosen
-	}
-	if c.Replay {
-		panic(HarnessPanic(fmt.Sprintf("explore: replay ran past the recorded choices at %s", label)))
 	}
 	first := 0
 	if c.pos == 0 && c.e.NShards > 1 && !c.e.GateSharding {
@@ -88,6 +86,7 @@ func (c *C) Choose(n int, kind ChoiceKind, label string) int {
 	}
 	c.stack = append(c.stack, frame{n: n, chosen: first, kind: kind, label: label})
 	c.pos++
+	c.afterChoice()
 	return first
 }
 
@@ -110,6 +109,30 @@ func (c *C) Gate() {
 		panic(errSkip)
 	}
 }
+
+// afterChoice: fine-grained breadcrumbs and the step-over list of fatal cases.
+//
+//go:norace
+func (c *C) afterChoice() {
+	e := c.e
+	if e.OnChoice == nil && len(e.SkipSeqs) == 0 {
+		return
+	}
+	ch := make([]int, c.pos)
+	for i := 0; i < c.pos; i++ {
+		ch[i] = c.stack[i].chosen
+	}
+	if len(e.SkipSeqs) > 0 && c.pos == len(c.stack) && e.SkipSeqs[fmt.Sprint(ch)] {
+		panic(errSkip)
+	}
+	if e.OnChoice != nil {
+		e.OnChoice(ch)
+	}
+}
+
+// SkipExecution abandons the running execution without counting it (used to
+// step over a case known to kill the worker process).
+func SkipExecution() { panic(errSkip) }
 
 // Bool is Choose(2) as a bool.
 func (c *C) Bool(kind ChoiceKind, label string) bool { return c.Choose(2, kind, label) == 1 }
@@ -168,9 +191,11 @@ type Explorer struct {
 	Bound        int // max deviations per execution
 	Shard        int
 	NShards      int
-	GateSharding bool      // shard at C.Gate() by hash of the choice prefix instead of striding the first choice
-	Deadline     time.Time // zero = none
-	MaxFailures  int       // stop after this many failures (0 = 50)
+	GateSharding bool                // shard at C.Gate() by hash of the choice prefix instead of striding the first choice
+	OnChoice     func(choices []int) // called after every decision (fine-grained breadcrumbs)
+	SkipSeqs     map[string]bool     // fmt.Sprint(choices) of cases to step over (they killed an earlier worker)
+	Deadline     time.Time           // zero = none
+	MaxFailures  int                 // stop after this many failures (0 = 50)
 	Stats        Stats
 }
 
@@ -292,15 +317,16 @@ func (e *Explorer) advance(c *C) bool {
 // ReplayOnce runs body once along the recorded choices (no exploration) and
 // returns the failure, if any, and the outcome digest.  An out-of-range
 // recorded choice or a body that asks for more choices than recorded is a hard
-// error.
+// error; decisions after the recorded ones take the default answer 0.
 func ReplayOnce(choices []int, body func(c *C)) (fail *Failure, outcome string) {
 	c := &C{e: &Explorer{NShards: 1}, Replay: true}
 	for _, ch := range choices {
 		c.stack = append(c.stack, frame{n: -1, chosen: ch})
 	}
+	recorded := len(c.stack)
 	body(c)
-	if c.pos != len(c.stack) {
-		panic(HarnessPanic(fmt.Sprintf("explore: replay used %d of %d recorded choices", c.pos, len(c.stack))))
+	if c.pos < recorded {
+		panic(HarnessPanic(fmt.Sprintf("explore: replay used %d of %d recorded choices", c.pos, recorded)))
 	}
 	if c.fail != nil {
 		c.fail.Choices = c.Choices()
